@@ -129,6 +129,33 @@ func c03(r *Run) {
 		r.absentf(" C03: mcache.Free is never called")
 	}
 
+	// ---- R2' a freed block is forgotten: the place it was taken from is cleared before the function returns -----------
+	{
+		nFree := 0
+		for _, site := range callSitesOf(w, freeFn) {
+			fn := site.Parent()
+			ld, ok := callCommon(site).Args[0].(*ssa.UnOp)
+			if !ok || ld.Op != token.MUL {
+				continue
+			}
+			switch ld.X.(type) {
+			case *ssa.FieldAddr, *ssa.IndexAddr:
+			default:
+				continue
+			}
+			nFree++
+			place := stablePath(ld.X)
+			cleared := func(i ssa.Instruction) bool {
+				st, ok := i.(*ssa.Store)
+				return ok && stablePath(st.Addr) == place && isNilConst(st.Val)
+			}
+			r.mustPass("C03.R2:no-reference-kept-to-a-freed-block:"+siteKey(w, site), "after a block went back to the pool the field / element it was taken from is set to nil before the function returns: a kept reference (even an empty re-slice of it) would be written or handed out again while the pool gives the same block to someone else", fn, site, []Start{After(site)}, cleared, nil, nil, place+" = nil on every path after free()")
+		}
+		if nFree < 3 {
+			r.absentf(" C03: only %d free() sites that take the block from a field", nFree)
+		}
+	}
+
 	// ---- R2 free is guarded by ownership ---------------------------------------------------------------
 	{
 		isDec := func(v ssa.Value) bool {
